@@ -437,7 +437,7 @@ def _monitor(case: dict, impl: dict) -> list[Violation]:
         elif tag == 'slots':
             slots = e[1]
         elif tag == 'told':
-            last_change_idx = idx          # AddUser / GetUserStatus responses request a cycle (manager.py:1193-1202)
+            last_change_idx = idx          # AddUser / GetUserStatus responses request a cycle (manager.py:1211-1221)
         elif tag == 'state':
             _, k, old, new = e
             if k is None:
